@@ -197,19 +197,7 @@ func TestSeeds(t *testing.T) {
 	if len(seeds) == 0 {
 		t.Skip("no corpus")
 	}
-	var full []acc.Step
-	for _, op := range acc.ReadOnlyOps {
-		switch op {
-		case "Layer", "LayerClass":
-			full = append(full, acc.Step{Op: op, Arg: 1})
-		case "LayerString", "LayerDump", "LayerGoString":
-			for i := 0; i < 8; i++ {
-				full = append(full, acc.Step{Op: op, Arg: i})
-			}
-		default:
-			full = append(full, acc.Step{Op: op})
-		}
-	}
+	full := fullProgram()
 	names := []string{"Ethernet", "IPv4", "IPv6", "TCP", "UDP", "DNS", "Dot11", "RadioTap", "LinuxSLL", "SCTP", "PPP", "Loopback", "USB", "SFlow", "GRE", "ICMPv6", "OSPF", "LLC", "LinkLayerDiscovery", "CiscoDiscovery"}
 	var firsts []gopacket.LayerType
 	for _, lt := range registry.FirstLayers() {
